@@ -485,8 +485,8 @@ static void obj_report(const char* obj, int cls, int nsub) {
 // per call context written by the caller, read by the definition
 static const void* g_arg[8];      // address of the object passed for each parameter (as the method's class / as Tracked)
 static long g_uc[8];              // use_count at the call site just before the call
-static std::weak_ptr<void> g_owner[8];
-static std::shared_ptr<void> g_kept[8];   // the definition keeps a copy of every smart pointer it receives
+static std::weak_ptr<const void> g_owner[8];
+static std::shared_ptr<const void> g_kept[8];   // the definition keeps a copy of every smart pointer it receives
 static long g_ret_value;
 static Tracked g_ret_obj(0);
 
@@ -559,10 +559,19 @@ def sp_chain(var, witness):
     return e
 
 
+# const_pointee scenarios: every virtual parameter, argument and definition parameter designates a const-qualified class
+# (virtual_<const T&>, virtual_ptr<const T>, shared_ptr<const T> ...); cv-qualification must be transparent to the library
+_Q = ['']
+
+
+def qname(c):
+    return _Q[0] + cname(c)
+
+
 def method_param_type(p):
     if not p['v']:
         return {'val': 'Tracked', 'lref': 'Tracked&', 'rref': 'Tracked&&', 'moveonly': 'MoveOnly'}[p['cat']]
-    B = cname(p['cls'])
+    B = qname(p['cls'])
     return {'ref': 'virtual_<%s&>', 'rref': 'virtual_<%s&&>', 'ptr': 'virtual_<%s*>', 'shared': 'virtual_<std::shared_ptr<%s>>',
             'cshared': 'virtual_<const std::shared_ptr<%s>&>', 'vptr': 'VP<%s>', 'vsptr': 'VSP<%s>', 'cvsptr': 'const VSP<%s>&',
             'cvptr': 'const VP<%s>&'}[p['kind']] % B
@@ -572,7 +581,7 @@ def def_param_type(p, D):
     if not p['v']:
         return method_param_type(p)
     return {'ref': '%s&', 'rref': '%s&&', 'ptr': '%s*', 'shared': 'std::shared_ptr<%s>', 'cshared': 'const std::shared_ptr<%s>&',
-            'vptr': 'VP<%s>', 'vsptr': 'VSP<%s>', 'cvsptr': 'const VSP<%s>&'}[p['kind']] % cname(D)
+            'vptr': 'VP<%s>', 'vsptr': 'VSP<%s>', 'cvsptr': 'const VSP<%s>&'}[p['kind']] % qname(D)
 
 
 RET_TYPE = {'void': 'void', 'int': 'long', 'val': 'Tracked', 'lref': 'Tracked&', 'moveonly': 'MoveOnly'}
@@ -583,7 +592,7 @@ def emit_args(w, H, m, args, indent='    '):
     exprs, late = [], []
     for pi, (p, a) in enumerate(zip(m['params'], args)):
         if p['v']:
-            B = cname(p['cls'])
+            B = qname(p['cls'])
             k = p['kind']
             if a.get('fresh'):
                 o = a['obj']
@@ -624,6 +633,7 @@ def emit_args(w, H, m, args, indent='    '):
 
 
 def emit_cpp(scn):
+    _Q[0] = 'const ' if scn['flags'].get('const_pointee') else ''
     H = hier_of(scn['classes'])
     pol = scn['flags'].get('policy', 'default')
     POL = ', POL' if pol == 'throw' else ''
@@ -663,7 +673,7 @@ def emit_cpp(scn):
                     vi += 1
                     dps.append('%s a%d' % (def_param_type(p, D), pi))
                     k = p['kind']
-                    Bn, Dn = cname(p['cls']), cname(D)
+                    Bn, Dn = qname(p['cls']), qname(D)
                     # every observation is taken in its own statement: virtual_ptr::get() returns the smart pointer
                     # BY VALUE, so a temporary owner exists while we look (hence the "- 1")
                     if k in ('ref', 'rref'):
@@ -685,7 +695,7 @@ def emit_cpp(scn):
                         lib = 'yorel::yomm2::detail::requires_dynamic_cast<%s*, const std::shared_ptr<%s>&>' % (Bn, Dn)
                     else:
                         lib = 'yorel::yomm2::detail::requires_dynamic_cast<%s&, %s&>' % (Bn, Dn)
-                    back = ('(static_cast<const void*>(static_cast<const %s*>(pd)) == g_arg[%d]) ? 1 : 0' % (Bn, pi)) \
+                    back = ('(static_cast<const void*>(static_cast<const %s*>(pd)) == g_arg[%d]) ? 1 : 0' % (cname(p['cls']), pi)) \
                         if count_sub(H, D, p['cls']) == 1 else '-1'
                     body.append('      varg(%d, "%s", %d, static_cast<const void*>(pd), %s, can_static<%s&, %s&>::value, %s, uc, own); }'
                                 % (pi, k, D, lib, Bn, Dn, back))
